@@ -278,3 +278,29 @@ def run(ctx):
     ctx.ob("C12.R6", site, "absolute symbol: value; section symbol: value + section.address", ok_abs and ok_rel, construct="value-composition")
     sec = assigned_values(fn, "section")
     ctx.ob("C12.R6", site, "the section looked up is the symbol's own section", any(norm(v) == "self.get_section(symbol.section)" for v in sec), construct="own-section")
+    _name_index(ctx)
+
+
+def _name_index(ctx):
+    """R7: ObjectFile.symbol_map is the index behind has_symbol / get_symbol, which the linker reads as "is there a GLOBAL
+    with this name" (merge_global_symbol) and users as "address of the global called X" (get_symbol_value).  Local
+    symbols of different objects may share a name with a global; they must stay out of the index."""
+    from ..sym import conjuncts
+    ctx.rule("C12.R7", "the by-name index of an object file (symbol_map) holds global symbols only: every store into it lies under a test that the binding is global; local symbols are only reachable through their id", floor=3)
+    mod = ctx.project.module(O)
+    stores = []
+    for q, f in mod.defs.items():
+        if isinstance(f, ast.FunctionDef):
+            for n in walk_no_nested(f):
+                if isinstance(n, ast.Assign) and isinstance(n.targets[0], ast.Subscript) and norm(n.targets[0].value).endswith(".symbol_map"):
+                    stores.append((q, f, n))
+    ctx.need(stores, "objectfile.py: no store into symbol_map found")
+    for q, f, n in stores:
+        conds = [(" ".join(norm(c).split()), pol) for c, pol in conjuncts(n, f, {})]
+        ok = any(pol is True and c in ("binding == 'global'", "symbol.binding == 'global'", "symbol.is_global", "binding == \"global\"") for c, pol in conds)
+        ctx.ob("C12.R7", "%s:%s" % (O, q), "a symbol enters the by-name index only when its binding is global", ok, construct="index-globals-only:" + q, node=n, detail="; ".join("%s%s" % ("" if p else "not ", c) for c, p in conds) or "unconditional")
+    for meth in ("has_symbol", "get_symbol"):
+        f = ctx.fn(O, "ObjectFile." + meth)
+        ctx.ob("C12.R7", "%s:ObjectFile.%s" % (O, meth), "%s answers from that index" % meth, "self.symbol_map" in norm(f), construct="reads-index:" + meth)
+    mg = ctx.fn(L, "Linker.merge_global_symbol")
+    ctx.ob("C12.R7", L + ":Linker.merge_global_symbol", "(context) the linker decides define / complete / duplicate by has_symbol(name) and get_symbol(name)", "has_symbol(" in norm(mg) and "get_symbol(" in norm(mg), construct="linker-uses-index")
